@@ -9,6 +9,7 @@ pub fn case_json(prop: &str, verif_seed: u64, idx: u64) -> Value {
     let info = props::prop(prop).expect("property");
     match info.engine {
         Engine::Sql | Engine::Crash => serde_json::to_value(run::gen_sql_case(prop, verif_seed, idx)).unwrap(),
+        Engine::Wal => serde_json::to_value(crate::walsim::gen_case(verif_seed, idx)).unwrap(),
         _ => json!({}),
     }
 }
@@ -17,6 +18,7 @@ pub fn sample_json(prop: &str, verif_seed: u64, idx: u64) -> Value {
     let info = props::prop(prop).expect("property");
     match info.engine {
         Engine::Sql | Engine::Crash => run::sample_of(&run::gen_sql_case(prop, verif_seed, idx)),
+        Engine::Wal => crate::walsim::sample_of(&crate::walsim::gen_case(verif_seed, idx)),
         _ => json!({}),
     }
 }
@@ -55,12 +57,23 @@ pub fn run_one(prop: &str, verif_seed: u64, idx: u64) -> RunResult {
     match info.engine {
         Engine::Sql => {
             let case = run::gen_sql_case(prop, verif_seed, idx);
-            run::run_sql_case(&case, idx)
+            let mut r = run::run_sql_case(&case, idx);
+            if let Some((i, g)) = run::audit_generated(&case) {
+                r.counters.insert(format!("generator_tripped_guard:{g}"), 1);
+                r.hazards.push(format!("generated history trips guard {g} at event {i}"));
+            }
+            r
         }
         Engine::Crash => {
             let case = run::gen_sql_case(prop, verif_seed, idx);
-            crate::crashsim::run_case(&case, idx)
+            let mut r = crate::crashsim::run_case(&case, idx);
+            if let Some((i, g)) = run::audit_generated(&case) {
+                r.counters.insert(format!("generator_tripped_guard:{g}"), 1);
+                r.hazards.push(format!("generated history trips guard {g} at event {i}"));
+            }
+            r
         }
+        Engine::Wal => crate::walsim::run_case(&crate::walsim::gen_case(verif_seed, idx), idx),
         _ => unimplemented!(),
     }
 }
@@ -92,6 +105,9 @@ pub fn replay_raw(path: &str, mut out: std::fs::File) -> i32 {
     } else if engine.starts_with("E2") {
         let case: SqlReplay = serde_json::from_value(v).expect("crash replay");
         crate::crashsim::run_case(&case, 0)
+    } else if engine.starts_with("E3a") {
+        let case: crate::walsim::WalReplay = serde_json::from_value(v).expect("wal replay");
+        crate::walsim::run_case(&case, 0)
     } else {
         eprintln!("unknown engine in replay");
         return 2;
